@@ -68,12 +68,21 @@ func loadDeliverable() map[string]*Deliverable {
 type deliverSet struct {
 	req  map[string]bool
 	resp map[string]bool // op + " " + variant
+	// all: a matrix document (matrix.go): its schemas carry no constraint, every operation and variant is demanded
+	all bool
 }
+
+func (d *deliverSet) hasReq(k string) bool  { return d.all || d.req[k] }
+func (d *deliverSet) hasResp(k string) bool { return d.all || d.resp[k] }
 
 func (e *Engine) deliverSets() map[string]*deliverSet {
 	all := loadDeliverable()
 	out := map[string]*deliverSet{}
 	for _, p := range e.Corpus {
+		if isMatrix(p) {
+			out[p.Name] = &deliverSet{all: true}
+			continue
+		}
 		d := all[specKey(p.Spec)]
 		if d == nil || d.SHA != p.SpecSHA {
 			continue
@@ -247,6 +256,9 @@ func typedExact(r *CRecord, pkg string) []problem {
 		if strings.Contains(cls, "number arrived one unit in the last place away") {
 			key = keyOf("typed/json number reader/" + cls[strings.Index(cls, "/")+1:]) // one cause (a dependency), whatever the operation
 		}
+		if strings.Contains(cls, "empty list arrived as one empty text") {
+			key = keyOf("typed/joined style/" + cls) // one cause per direction, whatever the operation
+		}
 		if strings.Contains(cls, "media type arrived without its parameters") {
 			key = keyOf("typed/wildcard body/" + cls) // one cause per direction, whatever the operation
 		}
@@ -298,7 +310,7 @@ func typedDeliver(r *CRecord, pkg string, ds *deliverSet) []problem {
 	// number?) is the document's ambiguity, and the answer may be "neither fits": where a sum type is involved,
 	// delivery of wide values is not demanded (exactness still is).
 	wide := r.Call.Edge
-	if ds.req[opKey(&r.Call)] && !(wide && t.SentSum2) {
+	if ds.hasReq(opKey(&r.Call)) && !(wide && t.SentSum2) {
 		if rs == nil {
 			st := 0
 			if len(r.Sides) > 0 {
@@ -310,7 +322,7 @@ func typedDeliver(r *CRecord, pkg string, ds *deliverSet) []problem {
 			out = append(out, problem{"core-domain values are always delivered (request)", fmt.Sprintf("call t%d.o%d %s (value seed %d): the handler was not reached: server status %d, client error %q", r.Task, r.Op, r.Call.TOp, r.Call.V, st, r.ClientErr), keyOf("typed/undelivered request/" + pkg + "/" + r.Call.TOp)})
 		}
 	}
-	if rs != nil && rs.RespType != "" && ds.resp[opKey(&r.Call)+" "+rs.RespType] && !(wide && rs.RespSum2) {
+	if rs != nil && rs.RespType != "" && ds.hasResp(opKey(&r.Call)+" "+rs.RespType) && !(wide && rs.RespSum2) {
 		if !t.GotValue {
 			out = append(out, problem{"core-domain values are always delivered (response)", fmt.Sprintf("call t%d.o%d %s (value seed %d): the handler returned %s, the caller got error %q", r.Task, r.Op, r.Call.TOp, r.Call.V, rs.RespType, r.ClientErr), keyOf("typed/undelivered response/" + pkg + "/" + r.Call.TOp + "/" + rs.RespType)})
 		}
@@ -439,6 +451,9 @@ type typedStats struct {
 func (e *Engine) checkTyped(c *core.Ctx, id string) ([]core.Violation, map[string]any, error) {
 	var pkgs []CorpusPkg
 	for _, p := range e.Corpus {
+		if only := os.Getenv("VERIF_TYPED_ONLY"); only != "" && !strings.Contains(p.Name, only) {
+			continue
+		}
 		if len(p.Ops) > 0 {
 			pkgs = append(pkgs, p)
 		}
